@@ -16,19 +16,19 @@ EXAMPLES = sorted(glob.glob(os.path.join(REPO, "floogen", "examples", "*.yml")))
 
 # per property: generator restrictions and case counts (quick, thorough)
 CONFIG = {
-    "C01": dict(algos=None, families=None, n=(250, 4000)),
-    "C02": dict(algos=["ID"], families=["star", "mesh", "meshx", "tree", "custom"], n=(200, 3000), perms=True),
-    "C03": dict(algos=["SRC"], families=["star", "mesh", "meshx", "tree", "custom"], n=(200, 3000), perms=True, derived_sweep=True),
+    "C01": dict(algos=None, families=None, n=(250, 4000), derived_sweep=True),
+    "C02": dict(algos=["ID"], families=["star", "mesh", "meshx", "tree", "custom"], n=(200, 3000), perms=True, derived_sweep=True, topo_sweep=True),
+    "C03": dict(algos=["SRC"], families=["star", "mesh", "meshx", "tree", "custom"], n=(200, 3000), perms=True, derived_sweep=True, topo_sweep=True),
     "C04": dict(algos=["XY"], families=["mesh"], n=(200, 3000), xy_sweep=True, skip_xy_offset=True),
-    "C05": dict(algos=None, families=None, n=(250, 4000), perms=True),
-    "C06": dict(algos=None, families=None, n=(250, 4000)),
+    "C05": dict(algos=None, families=None, n=(250, 4000), perms=True, topo_sweep=True, overfull_sweep=True),
+    "C06": dict(algos=None, families=None, n=(250, 4000), topo_sweep=True, overfull_sweep=True),
     "C07": dict(algos=None, families=None, n=(250, 4000), perms=True, derived_sweep=True),
     "C08": dict(algos=None, families=None, n=(250, 4000)),
     "C09": dict(algos=["ID", "SRC"], families=["mesh", "tree"], n=(150, 1500), mesh_sweep=True),
     "C11": dict(algos=None, families=None, n=(150, 2000)),
     "C12": dict(algos=None, families=None, n=(200, 2000), size_sweep=True, derived_sweep=True),
     "C13": dict(algos=None, families=None, n=(250, 4000), derived_sweep=True),
-    "C14": dict(algos=["ID", "SRC"], families=["star", "mesh", "meshx", "tree", "custom"], n=(200, 3000), chain_sweep=True),
+    "C14": dict(algos=["ID", "SRC"], families=["star", "mesh", "meshx", "tree", "custom"], n=(200, 3000), chain_sweep=True, topo_sweep=True),
 }
 
 
@@ -117,7 +117,44 @@ def sweep_cases(pid, tier, rng):
                     if cfg:
                         cfg = json.loads(json.dumps(cfg))
                         cfg["routing"][k] = v
+                        if v != 1:
+                            cfg["routing"].pop("use_id_table", None)      # the default: table in use
                         out.append((f"derived:{algo}:{k}={v}", cfg))
+    if conf.get("overfull_sweep"):
+        for algo in ["XY", "ID", "SRC"]:
+            for degree in ([3, 4, 5] if big else [3, 4]):
+                cfg = gen_desc.gen_overfull(rng, algo, rng.choice(["axi", "narrow-wide"]), degree)
+                if cfg:
+                    out.append((f"overfull:{algo}:{degree}", cfg))
+    if conf.get("topo_sweep"):
+        # shapes with a shorter way round: rings through boundary ports, through an outside router, between siblings
+        for algo in conf["algos"] or ["ID", "SRC"]:
+            if algo == "XY":
+                continue
+            shapes = [("torus", 3, 1), ("torus", 4, 2), ("hub", 6, 0), ("hub", 4, 0), ("bypass", 3, 0)]
+            if big:
+                shapes += [("torus", 5, 1), ("torus", 3, 3), ("hub", 7, 0), ("bypass", 2, 0)]
+            for kind, a, b in shapes:
+                nt = rng.choice(["axi", "narrow-wide"])
+                if kind == "torus":
+                    cfg = gen_desc.gen_torus(rng, algo, nt, a, b)
+                elif kind == "hub":
+                    cfg = gen_desc.gen_chain_hub(rng, algo, nt, a)
+                else:
+                    cfg = gen_desc.gen_tree_bypass(rng, algo, nt, a)
+                if cfg:
+                    out.append((f"topo:{kind}:{algo}:{a}x{b}", cfg))
+    if conf.get("mesh_sweep"):
+        # the local endpoint array mirrored onto the routers
+        gen_desc.MIRROR_LOCAL = True
+        try:
+            for algo in ["ID", "SRC"]:
+                for (m, n) in ([(3, 3), (4, 3), (3, 4)] if big else [(3, 3)]):
+                    cfg = gen_desc.gen_mesh(rng, algo, "axi", m=m, n=n, sides=[], partial_local=False)
+                    if cfg:
+                        out.append((f"mirror-sweep:{algo}:{m}x{n}", cfg))
+        finally:
+            gen_desc.MIRROR_LOCAL = False
     if conf.get("chain_sweep"):
         for algo in ["ID", "SRC"]:
             for m in ([3, 5, 7, 9] if big else [5, 7]):
@@ -275,6 +312,9 @@ class NetRunner:
         import lean
         import collections
         drv = lean.Driver()
+        # descriptions without address table only where the property does not speak about decoding or routing by it
+        gen_desc.ALLOW_NO_TABLE = pid in ("C05", "C06", "C11", "C12")
+        gen_desc.SHORT_DEGREE = pid in ("C05", "C06")
         stats = collections.Counter()
         dist = collections.Counter()
         seen = set()
